@@ -825,6 +825,25 @@ func realAlignCases(opens []int, sizes []int, emit func(AlignCase) bool) bool {
 				}
 			}
 		}
+		// byte 0x00 and 0xfe are letters like any other (2-bit codes, raw quality values), in tables
+		// of 70 x 80 cells
+		nul := MatSpec{Letters: gen.B("\x00\x01\xfea"), Pair: [][]int{{4, -2, -1, -3}, {-2, 5, -3, -1}, {-1, -3, 6, -2}, {-3, -1, -2, 3}}, DelGap: []int{-2, -1, -2, -1}, InsGap: []int{-2, -1, -2, -1}, Open: open}
+		{
+			x := lcg(99)
+			var a, b []byte
+			for i := 0; i < 70; i++ {
+				a = append(a, "\x00\x00\x01\xfea"[x.next(5)])
+			}
+			b = append(bytes.Clone(a[5:40]), 0, 0, 0xfe)
+			b = append(b, a[38:]...)
+			b = append(b, 0, 1, 0, 1, 0, 'a', 0, 0, 0, 0, 0)
+			for _, local := range []bool{false, true} {
+				if !emit(AlignCase{A: a, B: b, M: nul, Local: local}) || !emit(AlignCase{A: b, B: a, M: nul, Local: local}) ||
+					!emit(AlignCase{A: bytes.Repeat([]byte{0}, 70), B: bytes.Repeat([]byte{0}, 64), M: nul, Local: local}) {
+					return false
+				}
+			}
+		}
 		// both cases with scores of their own
 		mixed := MatSpec{Letters: gen.B("aAcC"), Pair: [][]int{{2, -1, -3, -3}, {-1, 3, -3, -2}, {-3, -3, 2, 0}, {-3, -2, 0, 4}}, DelGap: []int{-1, -2, -1, -2}, InsGap: []int{-1, -2, -1, -2}, Open: open}
 		for _, a := range allSeqs([]byte("aAcC"), 3) {
